@@ -38,11 +38,14 @@ type c20Type struct {
 // cmd/gentypes (build tag c20table); ./run generates it for C20.
 var c20Types []c20Type
 
+// c20ConstsOutsideTypesGo: constants of generated types found in other files of the package.
+var c20ConstsOutsideTypesGo int
+
 func registerC20() {
 	lib.Register(&lib.Check{
 		ID:    "C20",
 		Level: "exploration",
-		Rule: "the constant table is generated at check time from the types.go of the tree under test (go/parser) and compiled into the checker; a case is one (type, value): " +
+		Rule: "the constant table is generated at check time from the types.go of the tree under test (go/parser; constants of the generated types declared in other files of the package are included) and compiled into the checker; a case is one (type, value): " +
 			"every constant of every generated type, every remaining value of 8- and 16-bit types, and for 32-bit types all neighbours of constants, every single-bit and two-bit value, every OR / sum / difference of two named values, plus 200000 PRNG values; " +
 			"before any sequential use in the worker process, 8 goroutines make the process's first String() calls of each type at the same moment; non-trivial: String() was called and compared (named value: one of the names without the type prefix; other value: Type(n)); the value checks are repeated in a binary built with GOARCH=386 (32-bit int) when the host can run it; plus regeneration of types_string.go with the repository's own stringer (verif-tagged fitgen; six runs with GOMAXPROCS default, 1, 3, 6, 7, 12) compared byte for byte",
 		Assume:        []string{"Bool (hand-written in types_man.go, prints prefixed names by design) is reported separately and not judged by the generated-type rule"},
@@ -201,6 +204,7 @@ func c20Main(c *lib.Ctx) {
 	c.Count("constants", int64(nconst))
 	c.Count("types_in_table", int64(len(c20Types)))
 	// Bool, reported separately.
+	c.Count("constants_of_generated_types_declared_outside_types_go", int64(c20ConstsOutsideTypesGo))
 	c.Res.Extra["bool_strings"] = map[string]string{"0": fit.Bool(0).String(), "1": fit.Bool(1).String(), "255": fit.Bool(255).String(), "7": fit.Bool(7).String()}
 	c.Sample("constant", 1, map[string]interface{}{"type": c20Types[0].Name, "const": c20Types[0].Consts[0].Name, "value": c20Types[0].Consts[0].Value, "string": c20Types[0].Str(c20Types[0].Consts[0].Value)})
 	c20Storms(c)
